@@ -46,5 +46,5 @@ try:
 except ImportError:
     cov["b3_lock_order"] = "not built"
 v.finish(tier, "model_checking", cov, ["atomic commands: MSET, RENAME, LMOVE, SMOVE (the property's list); the STORE forms and multi-key DEL/EXISTS/MGET are sequences of single-key steps and only required not to deadlock",
-                                       "deadlock = clients of a history not finished after 5 s with every command non-blocking",
+                                       "deadlock = clients of a history not finished after 65 s with every command non-blocking (a history that finishes between 5 s and 65 s is counted as slow, not as a deadlock)",
                                        "schedules come from the Go scheduler under seeded yields at lock requests and map accesses"])
